@@ -32,7 +32,9 @@ def check_world(world, top):
                 skipped += 1
                 continue
             tu = refmodel.TU(model, cfg0, (p["name"], ei)).run()
-            if tu.events:
+            if tu.events or any(tu.resolve(fi, "q", os.path.dirname(os.path.realpath(cfg0["file"]))) is None
+                                for fi in cfg0["forced"]):
+                # a dangling include (also a forced one) is outside the domain: gcc rejects the unit
                 skipped += 1
                 continue
             a = refmodel.parse_argv(W.entry_argv(e))
